@@ -298,7 +298,8 @@ func runCRLHistory(h *Harness, cfg histCfg) {
 	// a location whose URL differs from L1's only in the letter case of the path: a different resource (RFC 3986),
 	// here one that mostly fails to deliver a CRL (and has its own content when it does). It must not be mistaken for L1.
 	if tp.Chance(1, 3) {
-		lc := mk("L1c", "http://crl.sim/A.CRL", w.A, 3, "cdp")
+		// (letter case of the path, a query string, a path parameter: all of them select another resource)
+		lc := mk("L1c", Pick(tp, "http://crl.sim/A.CRL", "http://crl.sim/a.crl?ca=2", "http://crl.sim/a.crl;v=2", "http://crl.sim/A.CRL"), w.A, 3, "cdp")
 		lc.cdpKind, lc.cdp = "own", []string{lc.URL}
 		lc.State = Pick(tp, oDown, oHTTP404, oGarbage)
 		lc.neverGood = true
@@ -339,7 +340,7 @@ func runCRLHistory(h *Harness, cfg histCfg) {
 	}
 
 	originStates := []string{oGood, oGood, oDown, oGarbage, oHTTP500, oTrunc, oEmpty, oWrongDoc}
-	variants := []string{"", "", "badsig", "stranger", "sibling", "critext"}
+	variants := []string{"", "", "badsig", "stranger", "sibling", "critext", "indirect"}
 	setOrigin := func(l *hLoc, state string, cur int, variant string) {
 		l.State, l.Cur, l.Variant = state, cur, variant
 		r.publish(l)
@@ -366,7 +367,7 @@ func runCRLHistory(h *Harness, cfg histCfg) {
 	case 1: // a list that must be rejected is fetched first, then an acceptable different version
 		k := tp.Int(3)
 		j := (k + 1 + tp.Int(2)) % 3
-		bad := Pick(tp, "badsig", "stranger", "sibling", "critext", oTrunc)
+		bad := Pick(tp, "badsig", "stranger", "sibling", "critext", "indirect", oTrunc)
 		script = append(script,
 			func() {
 				if bad == oTrunc {
